@@ -6,6 +6,7 @@ package main
 import (
 	"fmt"
 	"go/token"
+	"go/types"
 	"sort"
 	"strings"
 
@@ -220,11 +221,46 @@ func c13Nak(c *Ctx) {
 				nak = al
 			}
 		})
+		// the exchange-and-classify step may sit in an unexported helper of the package that f calls (requestAck(ctx, req, offer)):
+		// the helper's parameters are read as the arguments of that call
+		inCaller := func(s string) string { return s }
+		if nak == nil {
+			allInstrs(f, func(in ssa.Instruction) {
+				cl, ok := in.(*ssa.Call)
+				if !ok || nak != nil || cl.Call.StaticCallee() == nil {
+					return
+				}
+				g := cl.Call.StaticCallee()
+				if g.Blocks == nil || token.IsExported(g.Name()) || funcPkg(g) != funcPkg(f) || len(cl.Call.Args) != len(g.Params) {
+					return
+				}
+				allInstrs(g, func(i2 ssa.Instruction) {
+					if al, ok := i2.(*ssa.Alloc); ok && namedIs(al.Type(), modPath+"/dhcpv4/nclient4", "ErrNak") {
+						nak = al
+					}
+				})
+				if nak != nil {
+					sub := map[string]string{}
+					for i, p := range g.Params {
+						sub[sx.Of(p).String()] = sx.Of(cl.Call.Args[i]).String()
+					}
+					inCaller = func(s string) string {
+						for from, to := range sub {
+							s = strings.ReplaceAll(s, from, to)
+						}
+						return s
+					}
+				}
+			})
+		}
 		if nak == nil {
 			r.Violation("C13-K1", key("a NAK yields ErrNak"), c.P.pos(f.Pos()), "no ErrNak value is built: a NAK is returned as a lease or ignored")
 			continue
 		}
 		flds, _ := allocFieldStores(c, nak)
+		for k, v := range flds {
+			flds[k] = inCaller(v)
+		}
 		offerWant := sx.Of(f.Params[2]).String()
 		if name == "Renew" {
 			offerWant = "field[Offer](" + sx.Of(f.Params[2]).String() + ")"
@@ -310,6 +346,11 @@ func c13Matchers(c *Ctx) {
 				})
 				r.Check(okF && okT && okCall, "C13-K4", pk+".IsAll: true iff every matcher accepts the packet", c.P.pos(f.Pos()), "false inside the loop on a rejecting matcher, true after it", fmt.Sprintf("false-in-loop=%v true-after=%v calls m(p)=%v", okF, okT, okCall))
 			case "IsMessageType":
+				// loop-free spelling: decided by truth table
+				if what, _ := isMembershipPredicate(f); what != "" {
+					r.OK("C13-K4", pk+".IsMessageType: true iff the packet's type is one of the listed types", c.P.pos(f.Pos()), "truth table over {type == t, type ∈ tt}", what)
+					continue
+				}
 				nTrue, nFalse := 0, 0
 				for _, ret := range returnsOf(f) {
 					switch sx.Of(ret.Results[0]).String() {
@@ -336,12 +377,44 @@ func checkC16(c *Ctx) {
 		"K2 GetInnerMessage / DecapsulateRelayIndex(-1) iterate DecapsulateRelay until a non-relay is reached, for any depth",
 		"K3 NewRelayReplFromRelayForw: the four per-level collections are appended in the same loop iteration; the rebuild loop indexes all four with one index from the last element down to 0; EncapsulateRelay(m, RELAY-REPL, link[i], peer[i]) argument order; interface-id then remote-id re-added when present; guards (non-nil relay, type RELAY-FORW, non-nil message)",
 		"K4 NewAdvertiseFromSolicit / NewRequestFromAdvertise / NewReplyFromMessage: type guards, required-option guards, transaction id copied for ADVERTISE/REPLY and fresh for REQUEST, echoed options are the input's option objects; the set of message types NewReplyFromMessage accepts",
+		"K10 the relay/reply helpers of dhcpv6 (New…From…, Decapsulate…, EncapsulateRelay, ExtractMAC, Get…, Is…) write no memory reachable from their arguments (E3 mutation summaries)",
 		"K5 'after a trip over the wire': the schema rows of optRelayMsg, optInterfaceID, OptRemoteID and the relay header (C02-K2, re-evaluated)")
 	r.NotDecided = append(r.NotDecided, "equality of nested values after a wire round trip beyond slot/field agreement")
 	e6CheckProp(c, "C16-K1", "C16", 8)
 	containerRules(c, "C16-K9", "6")
 	c16RelayRepl(c)
 	c16ReplyTypes(c)
+	// K10: the relay and reply helpers (builders, decapsulation, ExtractMAC, Get*/Is*) write nothing reachable from the
+	// messages they are given: a relay that looks into a RELAY-FORW before answering it echoes what it received
+	e := getE3(c)
+	n := 0
+	for _, f := range readOnlyHelpers(c.P) {
+		if pkgPathOf(f) != modPath+"/dhcpv6" {
+			continue
+		}
+		n++
+		ps := map[int]bool{}
+		for i, prm := range f.Params {
+			if _, isSig := prm.Type().Underlying().(*types.Signature); isSig {
+				continue
+			}
+			if _, isSlice := prm.Type().Underlying().(*types.Slice); isSlice && typeCarriesFunc(prm.Type(), 0) {
+				continue
+			}
+			ps[i] = true
+		}
+		bad := ""
+		for _, x := range e.mutationFindings(f, ps) {
+			if strings.HasPrefix(x.short, "UNDECIDED") {
+				r.Undecided("C16-K10", "dhcpv6."+f.Name()+": "+x.short, x.pos, x.detail)
+				continue
+			}
+			bad += x.detail + "; "
+		}
+		r.Check(bad == "", "C16-K10", "dhcpv6."+f.Name()+": does not write the messages it is given", c.P.pos(f.Pos()), "E3: mutates ∩ inputs = ∅", bad)
+	}
+	r.Count("C16-K10-helpers", n)
+	r.Expect("C16-K10-helpers", 8)
 	e2CheckLayouts(c, "C16-K5", func(name string, f *ssa.Function) bool {
 		return strings.Contains(name, "optRelayMsg)") || strings.Contains(name, "optInterfaceID)") || strings.Contains(name, "OptRemoteID)") || strings.Contains(name, "RelayMessage).ToBytes") || name == "dhcpv6.RelayMessageFromBytes"
 	}, 7)
